@@ -22,7 +22,7 @@ def var_case(draw):
     sysd = draw(matrix_system(m=(2, 4), shape=shape, surplus=(1, 3), ub_kinds=("finite",), lb_kinds=("zero", "zero", "pos"), sub_cond=1e4))
     sysd, _prop = draw(proportional_variant(sysd))
     sv = Sys(sysd)
-    rows = draw(target_rows(sysd, ["interior", "interior", "outside", "scaled_out"], nrows=(1, 2), margin=(0.05, 0.45)))
+    rows = draw(target_rows(sysd, ["interior", "interior", "outside", "scaled_out"], nrows=(1, 3), margin=(0.05, 0.45)))
     ek = draw(st.sampled_from(["none", "none_fn", "hetero", "explicit", "explicit", "unc2d", "unc3d"]))
     eps_abs = None
     samples = None
@@ -35,7 +35,8 @@ def var_case(draw):
     W = draw(st.one_of(st.none(), gens.array((sv.m,), 0.4, 2.5, styles=("raw",))))
     return dict(system=sysd, rows=rows, eps_kind=ek, eps=eps_abs, samples=samples, use_l1=use_l1, l1_t=draw(st.floats(0.0, 1.0)), W=W,
                 l2_eps=draw(gens.log_uniform(1e-4, 1e-2)), l1_eps=draw(gens.log_uniform(1e-3, 1e-1)),
-                accuracy=draw(st.sampled_from(["high", "high", "default"])), repeat=draw(st.sampled_from([False, False, True])), proportional=_prop)
+                accuracy=draw(st.sampled_from(["high", "high", "default"])), repeat=draw(st.sampled_from([False, False, True])), proportional=_prop,
+                batch_size=draw(st.sampled_from([None, None, None, 2, 3, "full"])))
 
 
 def propagated(eps_abs, K):
@@ -95,6 +96,8 @@ def body_var(case):
         # interior-point solver may fail numerically there, so this combination runs with default settings (which fall back to SCS)
         high = False
     opt = dict(HIGH) if high else {}
+    if case.get("batch_size") is not None:
+        opt["batch_size"] = case["batch_size"]          # a performance setting: several targets stacked into one problem
     L1 = None
     if case["use_l1"]:
         L1 = []
@@ -154,6 +157,8 @@ def body_var(case):
     labs = sv.labels() + [f"eps:{ek}", "L1" if L1 is not None else "noL1", "acc:high" if high else "acc:default", "W" if w_arg is not None else "noW"]
     if case.get("proportional"):
         labs.append("proportional-sources")
+    if case.get("batch_size") is not None:
+        labs.append(f"batch:{case['batch_size']}")
     if case.get("repeat"):
         # the same request on the same estimator / with the same arrays: the variance model in force must not drift between calls
         for name, a, b_ in zip(("intensities", "predicted capture", "capture variance"), (X, Bp, Bv), again):
